@@ -300,6 +300,21 @@ func cmdCheck(args []string) int {
 			r.Obls = keep
 		}
 	}
+	if base := loadBaseline(prop); *tier == "thorough" && len(base) > 0 && !*updateBaseline {
+		// thorough tier: non-binding safety / callee-precondition obligations of functions under contract that were
+		// undecided when the baseline was taken are tried again, but with a short budget
+		noise := loadNameList(prop + ".unproved")
+		for _, r := range results {
+			if r.Kind != "contract" {
+				continue
+			}
+			for _, o := range r.Obls {
+				if !base[o.Name] && noise[o.Name] && (isSafetyKind(o.Kind) || o.Kind == "pre-of") {
+					o.CapMs = 20000
+				}
+			}
+		}
+	}
 	for _, g := range cfg.Ground {
 		results = append(results, runGround(w, g)...)
 	}
